@@ -315,7 +315,11 @@ class Ctx:
         return True
 
     def tie_broken(self, name, detail):
-        self.broken.append({"name": name, "detail": detail})
+        # keep at most three details per broken obligation/tie (the first ones are the most useful)
+        if sum(1 for b in self.broken if b["name"] == name) < 3:
+            self.broken.append({"name": name, "detail": detail})
+        else:
+            self.hist["broken-more:" + name] = self.hist.get("broken-more:" + name, 0) + 1
 
     def finish(self):
         if self._driver is not None:
@@ -323,7 +327,7 @@ class Ctx:
         os.makedirs(REPLAYS, exist_ok=True)
         # a broken proof obligation or tie without a concrete failing input is still a violation
         if self.broken and not self.violations:
-            self.violation("broken:" + ",".join(sorted(b["name"] for b in self.broken)),
+            self.violation("broken:" + ",".join(sorted({b["name"] for b in self.broken})[:12]),
                            {"kind": "no-failing-input-found", "broken": self.broken,
                             "explanation": "a proof obligation or correspondence no longer checks and the search on the real code found no failing input; the property is no longer shown to hold"},
                            no_failing_input=True)
